@@ -175,6 +175,7 @@ func (kr *kindRunner[C]) run(c Case, w *trace.Writer) error {
 	var frame []byte
 	sent := false
 	serr := "nil"
+	ev["mtu"], ev["innermtu"] = 0, 0
 	if c.Cls == "raw" {
 		frame, sent = x, true
 	} else {
@@ -194,6 +195,10 @@ func (kr *kindRunner[C]) run(c Case, w *trace.Writer) error {
 		}
 		cf()
 		serr = errClass(e)
+		// the law MTU(channel) = MTU(inner) - header length of THAT channel, whatever its siblings did (all
+		// channels of a kind share one sending mux here); judged as drift by MuxTrace (the verdict is C09's)
+		ev["mtu"] = sw.MTU()
+		ev["innermtu"] = kr.sendNode.MTU()
 		pk := kr.sendNode.Take()
 		if len(pk) == 1 && pk[0].IsAsk == (c.Op == "ask") {
 			frame, sent = pk[0].Data, true
@@ -277,19 +282,29 @@ func main() {
 	}
 	runners := map[string]runner{
 		"str": newKindRunner[string](ctx, "str",
-			func(x p2p.AskSwarm[netsim.Addr]) opener[string] { return strOpener{p2pmux.NewStringAskMux[netsim.Addr](x)} },
+			func(x p2p.AskSwarm[netsim.Addr]) opener[string] {
+				return strOpener{p2pmux.NewStringAskMux[netsim.Addr](x)}
+			},
 			func(k []int) string { return string(toBytes(k)) }, func(c string) []int { return fromBytes([]byte(c)) }),
 		"var": newKindRunner[uint64](ctx, "var",
-			func(x p2p.AskSwarm[netsim.Addr]) opener[uint64] { return u64Opener{p2pmux.NewVarintAskMux[netsim.Addr](x)} },
+			func(x p2p.AskSwarm[netsim.Addr]) opener[uint64] {
+				return u64Opener{p2pmux.NewVarintAskMux[netsim.Addr](x)}
+			},
 			bitsToU64, u64ToBits),
 		"u64": newKindRunner[uint64](ctx, "u64",
-			func(x p2p.AskSwarm[netsim.Addr]) opener[uint64] { return u64Opener{p2pmux.NewUint64AskMux[netsim.Addr](x)} },
+			func(x p2p.AskSwarm[netsim.Addr]) opener[uint64] {
+				return u64Opener{p2pmux.NewUint64AskMux[netsim.Addr](x)}
+			},
 			bitsToU64, u64ToBits),
 		"u32": newKindRunner[uint32](ctx, "u32",
-			func(x p2p.AskSwarm[netsim.Addr]) opener[uint32] { return u32Opener{p2pmux.NewUint32AskMux[netsim.Addr](x)} },
+			func(x p2p.AskSwarm[netsim.Addr]) opener[uint32] {
+				return u32Opener{p2pmux.NewUint32AskMux[netsim.Addr](x)}
+			},
 			func(k []int) uint32 { return uint32(bitsToU64(k)) }, func(c uint32) []int { return u64ToBits(uint64(c)) }),
 		"u16": newKindRunner[uint16](ctx, "u16",
-			func(x p2p.AskSwarm[netsim.Addr]) opener[uint16] { return u16Opener{p2pmux.NewUint16AskMux[netsim.Addr](x)} },
+			func(x p2p.AskSwarm[netsim.Addr]) opener[uint16] {
+				return u16Opener{p2pmux.NewUint16AskMux[netsim.Addr](x)}
+			},
 			func(k []int) uint16 { return uint16(bitsToU64(k)) }, func(c uint16) []int { return u64ToBits(uint64(c)) }),
 	}
 	sc := bufio.NewScanner(f)
